@@ -234,6 +234,14 @@ def cur():
     return Ctx.cur
 
 
+def _br(c, tag=None):
+    """decide a condition: concrete booleans need no context (so that the
+    oracles also run natively in replays)"""
+    if c is True or c is False:
+        return c
+    return Ctx.cur.branch(c, tag) if tag is not None else Ctx.cur.branch(c)
+
+
 # ---------------------------------------------------------------- formulas
 
 def conj(cs):
@@ -326,7 +334,7 @@ class SBool:
         self.e = e
 
     def __bool__(self):
-        return Ctx.cur.branch(self.e)
+        return _br(self.e)
 
     def __repr__(self):
         return 'SBool(%s)' % self.e
@@ -456,7 +464,7 @@ class SInt:
         raise Unmodelled('SInt % non-positive-constant')
 
     def __bool__(self):
-        return Ctx.cur.branch(self.e != 0)
+        return _br(self.e != 0)
 
     def __repr__(self):
         return 'SInt(%s)' % self.e
@@ -613,14 +621,14 @@ class SSeq:
         if start < 0:
             start = max(0, len(self.el) + start)
         for i in range(start, n - len(sub) + 1):
-            if Ctx.cur.branch(self.at(sub, i)):
+            if _br(self.at(sub, i)):
                 return i
         return -1
 
     def rfind(self, sub):
         sub = self._lift(sub)
         for i in range(len(self.el) - len(sub), -1, -1):
-            if Ctx.cur.branch(self.at(sub, i)):
+            if _br(self.at(sub, i)):
                 return i
         return -1
 
@@ -633,7 +641,7 @@ class SSeq:
     def __contains__(self, sub):
         if isinstance(sub, SByteInt) or type(sub) is int:
             v = sub.bv if isinstance(sub, SByteInt) else sub
-            return Ctx.cur.branch(disj(el_eq(e, v) for e in self.el))
+            return _br(disj(el_eq(e, v) for e in self.el))
         return self.find(sub) >= 0
 
     def count(self, sub):
@@ -698,10 +706,10 @@ class SSeq:
             test = lambda e: disj(el_eq(e, c) for c in cs)
         a, b = 0, len(self.el)
         if left:
-            while a < b and Ctx.cur.branch(test(self.el[a])):
+            while a < b and _br(test(self.el[a])):
                 a += 1
         if right:
-            while b > a and Ctx.cur.branch(test(self.el[b - 1])):
+            while b > a and _br(test(self.el[b - 1])):
                 b -= 1
         return mk_seq(self.el[a:b], self.kind)
 
@@ -731,7 +739,7 @@ class SSeq:
                 if isinstance(e, int):
                     if e >= 128:
                         raise Unmodelled('str.%s on non-ASCII' % what)
-                elif Ctx.cur.branch(z3.UGE(e, 128)):
+                elif _br(z3.UGE(e, 128)):
                     raise Unmodelled('str.%s on non-ASCII' % what)
         return self.el
 
